@@ -143,6 +143,16 @@ def r1_record_kinds(ctx: Ctx) -> None:
 
 def r2_fields(ctx: Ctx) -> None:
     fn, lp = _reader(ctx)
+    # a field decoded by int.from_bytes never notices a short read (b"" decodes as 0): only struct.unpack of an exact size raises
+    env0 = _loop_env(lp)
+    for c in [x for x in walk_no_nested(lp) if isinstance(x, ast.Call) and call_name(x) == "int.from_bytes" and x.args]:
+        src = inline(c.args[0], env0)
+        if isinstance(src, ast.Call) and (call_name(src) or "").endswith(".read"):
+            guarded = any(isinstance(i, ast.If) and always_raises(i.body) and "len(" in unparse(i.test) for i in walk_no_nested(lp))
+            if guarded:
+                raise AnalysisError("IncludeIpsNode.__init__: int.from_bytes fields with explicit length checks are not modelled")
+            ctx.fail(f"IncludeIpsNode.__init__:{unparse(c)[:50]}", "a field decoded with int.from_bytes accepts a short read (nothing left decodes as 0): a truncated record is "
+                     "taken as a valid one instead of being rejected, and at end of file the loop may never see the EOF marker")
     # magic
     magic = [s for s in walk_no_nested(fn.node) if isinstance(s, ast.If) and "b'PATCH'" in unparse(s.test)]
     ok = len(magic) == 1 and always_raises(magic[0].body) and unparse(magic[0].test).endswith(".read(5) != b'PATCH'")
